@@ -90,7 +90,7 @@ func VScaleParams(r VRegime) {
 		params.CoinbaseLockupPrecompileKickInHeight = 0
 		params.MinerDifficultyWindow = 3
 		params.BlocksPerYear = 1 << 40 // lockup multiples stay in "year 0"
-		types.TrimDepths = map[uint8]uint64{0: 2, 1: 3, 2: 4, 3: 5, 4: 6, 5: 7, 6: 8, 7: 9, 8: 10, 9: 11, 10: 12, 11: 13, 12: 14, 13: 15, 14: 16}
+		types.TrimDepths = map[uint8]uint64{0: 2, 1: 3, 2: 4, 3: 5, 4: 6, 5: 7}
 		inf := uint64(1) << 62
 		if r.ForksOn {
 			params.ControllerKickInBlock = 1 // prime block 1 has no parent inbound-ETX record (mainnet value is 262000)
@@ -244,6 +244,18 @@ func vMkSlice(cfg *VNodeConfig, ctx int, db ethdb.Database, fresh bool, logger *
 	sl, err := NewSlice(db, mcfg, pow, &txc, &lim, &cc, []common.Location{VZoneLoc}, 0, nil, eng, &CacheConfig{TrieCleanLimit: 16, TrieDirtyLimit: 16, SnapshotLimit: 0}, vm.Config{}, gen, logger)
 	if err != nil {
 		return nil, common.Hash{}, err
+	}
+	// The zone worker regenerates its pending header from a 1-second ticker (asyncStateLoop), in a
+	// goroutine serialised with the node's own callers by hc.headermu. The harness drives the
+	// worker itself, so that background source of nondeterminism is switched off: stop the loop,
+	// wait out an invocation that may already be in flight, and leave a fresh exit channel behind
+	// so that the regular shutdown path can still close it.
+	if w := sl.miner.worker; ctx == common.ZONE_CTX && sl.ProcessingState() {
+		close(w.exitCh)
+		w.wg.Wait()
+		sl.hc.headermu.Lock()
+		sl.hc.headermu.Unlock()
+		w.exitCh = make(chan struct{})
 	}
 	return sl, ghash, nil
 }
@@ -459,26 +471,22 @@ func (r VAppendResult) Err() error {
 	return r.HeadErr
 }
 
-// Append feeds a sealed block through the production path: store the block blob in every chain
-// whose context >= order (dom chains get the header-only view with their sub manifest), call
-// Slice.Append on the slice of the block's order (which descends into its subs), hand pending
-// ETXs to the dom, then make it the head.
-func (n *VNode) Append(blk *types.WorkObject) VAppendResult {
-	res := VAppendResult{Order: -1}
+// Insert feeds a sealed block through the production insert path WITHOUT making it the head: store
+// the block blob in every chain whose context >= order (dom chains get the header-only view with
+// their sub manifest), call Slice.Append on the slice of the block's order (which descends into
+// its subs) and hand the pending ETXs to the dom.
+func (n *VNode) Insert(blk *types.WorkObject) (int, error) {
 	_, order, err := n.Sl[2].hc.CalcOrder(blk)
 	if err != nil {
-		res.AppendErr = err
-		return res
+		return -1, err
 	}
 	if n.Cfg.Levels == 1 {
 		order = 2
 	}
-	res.Order = order
 	for c := order; c < 3; c++ {
 		b, err := VRoundTrip(blk, VZoneLoc)
 		if err != nil {
-			res.AppendErr = err
-			return res
+			return order, err
 		}
 		if c < 2 {
 			b.Body().SetTransactions(nil)
@@ -490,8 +498,7 @@ func (n *VNode) Append(blk *types.WorkObject) VAppendResult {
 			}
 			b, err = n.Sl[c].fillSubordinateManifest(b)
 			if err != nil {
-				res.AppendErr = fmt.Errorf("fill manifest ctx %d: %w", c, err)
-				return res
+				return order, fmt.Errorf("fill manifest ctx %d: %w", c, err)
 			}
 		}
 		n.Sl[c].WriteBlock(b)
@@ -499,21 +506,24 @@ func (n *VNode) Append(blk *types.WorkObject) VAppendResult {
 	cp, _ := VRoundTrip(blk, VZoneLoc)
 	pend, err := n.Sl[order].Append(cp, common.Hash{}, false, nil)
 	if err != nil {
-		res.AppendErr = err
-		return res
+		return order, err
 	}
 	if order > 0 && n.Cfg.Levels == 3 {
 		pe := types.PendingEtxs{Header: blk.ConvertToPEtxView(), OutboundEtxs: pend}
 		n.Sl[order].domInterface.AddPendingEtxs(pe)
 	}
-	// head switch: zone first (state processing), then doms
+	return order, nil
+}
+
+// SetHead makes an inserted block the head of every chain whose context >= order: zone first (state
+// processing / reorganisation happens there), then the doms.
+func (n *VNode) SetHead(blk *types.WorkObject, order int) error {
 	for c := 2; c >= order; c-- {
 		if n.Sl[c] == nil {
 			continue
 		}
 		if err := n.Sl[c].hc.SetCurrentHeader(blk); err != nil {
-			res.HeadErr = fmt.Errorf("ctx %d: %w", c, err)
-			return res
+			return fmt.Errorf("ctx %d: %w", c, err)
 		}
 	}
 	for c := order; c < 3; c++ {
@@ -522,6 +532,21 @@ func (n *VNode) Append(blk *types.WorkObject) VAppendResult {
 		}
 	}
 	n.poolReset(blk)
+	return nil
+}
+
+// Append = Insert + SetHead (what a node does with a block that extends its best chain).
+func (n *VNode) Append(blk *types.WorkObject) VAppendResult {
+	res := VAppendResult{Order: -1}
+	order, err := n.Insert(blk)
+	res.Order = order
+	if err != nil {
+		res.AppendErr = err
+		return res
+	}
+	if err := n.SetHead(blk, order); err != nil {
+		res.HeadErr = err
+	}
 	return res
 }
 
